@@ -51,8 +51,8 @@ var verifC22Deltas = [...]int64{1, 3600, 86400, 7 * 86400, 31 * 86400, 365 * 864
 // around a year boundary with 53 ISO weeks, or around a leap day; b = a + a typical period length.
 func VerifC22_BucketsGrid() {
 	starts := [...]int64{
-		1608768000, // 2020-12-24 00:00:00 (2020 has 53 ISO weeks)
-		1582502400, // 2020-02-24 00:00:00 (leap day)
+		1608768000,           // 2020-12-24 00:00:00 (2020 has 53 ISO weeks)
+		1582502400,           // 2020-02-24 00:00:00 (leap day)
 		4102444800 - 5*86400, // 2099-12-27 (2100 is not a leap year)
 	}
 	s := starts[verifC22Conc("start", 0, verifrt.Param("starts", 1)-1)]
